@@ -3722,7 +3722,17 @@ fn parse_sequence_keys(exprs: &[SExpr], s: &ParserState) -> Result<Vec<u16>> {
                                     // press->press: current press is mod
                                     mods_currently_held.push(*pressed);
                                 }
-                                let mut seq_num = u16::from(OsCode::from(pressed));
+                                // The run time folds the right-hand shift / ctrl / meta keys to
+                                // their left-hand versions before looking a sequence up (ralt is
+                                // kept: it is AltGr); store the same form here, otherwise a
+                                // sequence written with `rsft` or `RS-` could never be typed.
+                                let pressed_osc = match OsCode::from(pressed) {
+                                    OsCode::KEY_RIGHTSHIFT => OsCode::KEY_LEFTSHIFT,
+                                    OsCode::KEY_RIGHTMETA => OsCode::KEY_LEFTMETA,
+                                    OsCode::KEY_RIGHTCTRL => OsCode::KEY_LEFTCTRL,
+                                    osc => osc,
+                                };
+                                let mut seq_num = u16::from(pressed_osc);
                                 for modk in mods_currently_held.iter().copied() {
                                     seq_num |= mod_mask_for_keycode(modk);
                                 }
